@@ -119,14 +119,15 @@ theorem C10_import_unknown {df : Defects} {src dst dst' : Site} (hinv : SiteInv 
         · cases hp
           obtain ⟨ha', hw', hid'⟩ := parseRoom_agreesOrd (liftErr_ok hparse)
           refine ⟨room, rr, ?_, hs, ?_⟩
-          · rw [getMem_setMem]
+          · rw [getMem_noteInserted, getMem_setMem]
             have : room.id = rid := hid'.trans hcid
             simp [this]
           · intro ht d
             subst hc
-            have hsr : SameRows rr (groupsByUid (exportRoom df rr)) :=
+            have hsr : SameRows rr (groupsByUid df.uidOrderReversed (exportRoom df rr)) :=
               (exportRoom_sameRows df rr).symm.trans
-                (sameRows_of_groups_perm rfl (groupsByUid_perm _)).symm
+                (sameRows_of_groups_perm (x := groupsByUid df.uidOrderReversed (exportRoom df rr))
+                  (y := exportRoom df rr) rfl (groupsByUid_perm _ _)).symm
             exact sameAt_of_agrees ha.agrees ha'.agrees hsr hw hw' ht d
         · cases hp
 
@@ -265,10 +266,10 @@ def site5 : Site := match Site.empty.mutate 1 0 m5 with | .ok s => s | .error _ 
 def rows5 : RoomRow :=
   { rid := 0, mdate := 1, author := 1,
     admins := [⟨0, 1, 1, true, 1⟩, ⟨1, 2, 1, false, 1⟩],
-    groups := [{ gid := 0, mdate := 1, author := 1,
-                 rights := [⟨2, 1, 1, true, true, 1⟩, ⟨3, 0, 1, true, false, 1⟩],
-                 users := [⟨4, 4, 1, true, 1⟩, ⟨5, 5, 1, false, 1⟩],
-                 userAdmins := [⟨6, 1, 1, true, 1⟩] }] }
+    groups := [{ gid := 0, uid := 2, mdate := 1, author := 1,
+                 rights := [⟨3, 1, 1, true, true, 1⟩, ⟨4, 0, 1, true, false, 1⟩],
+                 users := [⟨5, 4, 1, true, 1⟩, ⟨6, 5, 1, false, 1⟩],
+                 userAdmins := [⟨7, 1, 1, true, 1⟩] }] }
 
 -- the guard is satisfiable by a non-trivial stored room, and then the code as it is restarts and agrees
 example : site5.stored = [rows5] ∧ (∀ rr ∈ site5.stored, ReloadGuard rr) := by
@@ -284,26 +285,21 @@ example : canAt site5 4 1 1 .mutateAll = true ∧ canAt (restarted Defects.asImp
     canAt site5 5 1 1 .mutateSelf = false ∧ canAt (restarted Defects.asImplemented site5) 5 1 1 .mutateSelf = false := by
   decide
 
-/-- two stored orders of the same two admin entries of key 2 with the same date and different flags -/
-def tieA : RoomRow :=
-  { rid := 0, mdate := 1, author := 1, groups := [],
-    admins := [⟨0, 1, 1, true, 1⟩, ⟨1, 2, 1, true, 1⟩, ⟨2, 2, 1, false, 1⟩] }
-def tieB : RoomRow :=
-  { rid := 0, mdate := 1, author := 1, groups := [],
-    admins := [⟨0, 1, 1, true, 1⟩, ⟨2, 2, 1, false, 1⟩, ⟨1, 2, 1, true, 1⟩] }
+/-- at date 1 (the date of the creation) key 1 disables admin 2: two entries of key 2 with one date -/
+def m6 : MutSpec := { rid := 0, isNew := false, date := 1, admins := [(2, false)], groups := [] }
+def site6 : Site := match site1.mutate 1 (0 + m1.size) m6 with | .ok s => s | .error _ => Site.empty
 
-def adminOf (rr : RoomRow) (k : Key) (d : Int) : Bool :=
-  match parseRoom false (exportRoom Defects.none rr) with
-  | .ok r => r.isAdmin k d
-  | .error _ => false
+def importedSite (df : Defects) (src : Site) : Site :=
+  match imported df src Site.empty with | .ok s => s | .error _ => Site.empty
 
-/-- **C10_breaks_sameDateEntries.** The guard `TiesHarmless` is needed even for the intended behaviour:
-    the same rows, returned by the storage in two orders (SQLite orders equal dates by uid), give different
-    answers when two entries of one key carry the same date and different flags. The live instance takes the
-    last inserted; a reload or an import takes whatever order the storage returns. -/
+/-- **C10_breaks_sameDateEntries.** The guard `TiesHarmless` is needed even for the intended behaviour.
+    Two entries of one key with the same date and different flags: the live instance takes the last
+    inserted (admin 2 is disabled); an importer takes them in the order the exporter's storage returns them,
+    uid order, and uids are random: when the later entry got the smaller uid, admin 2 is enabled on the
+    importer. (Replayed on the real code with `uids=desc`: corpus/C10/same-date-conflict.ops.) -/
 theorem C10_breaks_sameDateEntries :
-    tieA.admins.Perm tieB.admins ∧ adminOf tieA 2 1 = false ∧ adminOf tieB 2 1 = true := by
-  refine ⟨?_, by decide, by decide⟩
-  exact List.Perm.cons _ (List.Perm.swap _ _ _)
+    adminAtSite site6 2 1 = false ∧
+    adminAtSite (importedSite Defects.none site6) 2 1 = false ∧
+    adminAtSite (importedSite { Defects.none with uidOrderReversed := true } site6) 2 1 = true := by decide
 
 end Discret.RoomBuild
